@@ -62,7 +62,7 @@ func (c *FnCtx) typeFacts(st *State, t Term, gt types.Type) {
 	case *types.Pointer, *types.Map:
 		c.assume("", fmt.Sprintf("(and (<= 0 %s) (< %s %s))", t.S, t.S, st.alloc))
 	case *types.Slice:
-		c.assume("", fmt.Sprintf("(and (<= 0 (sl_arr %s)) (< (sl_arr %s) %s) (<= 0 (sl_off %s)) (<= 0 (sl_len %s)) (<= (sl_len %s) (sl_cap %s)) (=> (= (sl_arr %s) 0) (= (sl_cap %s) 0)))", t.S, t.S, st.alloc, t.S, t.S, t.S, t.S, t.S, t.S))
+		c.assume("", fmt.Sprintf("(and (<= 0 (sl_arr %s)) (< (sl_arr %s) %s) (<= 0 (sl_off %s)) (<= 0 (sl_len %s)) (<= (sl_len %s) (sl_cap %s)) (<= (sl_cap %s) 4611686018427387904) (=> (= (sl_arr %s) 0) (= (sl_cap %s) 0)))", t.S, t.S, st.alloc, t.S, t.S, t.S, t.S, t.S, t.S, t.S))
 	case *types.Struct:
 		srt := c.sortOf(gt)
 		for i := 0; i < u.NumFields(); i++ {
@@ -335,7 +335,7 @@ func (c *FnCtx) indexAddr(fr *frame, st *State, guard string, x *ssa.IndexAddr) 
 	switch u := x.X.Type().Underlying().(type) {
 	case *types.Slice:
 		c.oblige("bounds", "bounds@"+x.Name(), guard, fmt.Sprintf("(and (<= 0 %s) (< %s %s))", i, i, slLen(base.S)), "slice index")
-		return &Loc{Kind: "elem", Region: c.elemRegion(u.Elem()), Ref: slArr(base.S), Idx: add(slOff(base.S), i), T: u.Elem()}
+		return &Loc{Kind: "elem", Region: c.elemRegion(u.Elem()), Ref: slArr(base.S), Idx: fmt.Sprintf("(idx %s %s)", slOff(base.S), i), T: u.Elem()}
 	case *types.Pointer:
 		at := u.Elem().Underlying().(*types.Array)
 		c.nilCheck(guard, base.S, x.Name())
@@ -610,15 +610,15 @@ func (c *FnCtx) intBinop(fr *frame, guard string, x *ssa.BinOp, a, b Term) Term 
 	case token.ADD:
 		r := fmt.Sprintf("(+ %s %s)", a.S, b.S)
 		c.nowrap(guard, x, r)
-		return mk(r)
+		return mk(c.define("ar", SInt, r)) // named: keeps quantifier triggers free of nested arithmetic
 	case token.SUB:
 		r := fmt.Sprintf("(- %s %s)", a.S, b.S)
 		c.nowrap(guard, x, r)
-		return mk(r)
+		return mk(c.define("ar", SInt, r))
 	case token.MUL:
 		r := fmt.Sprintf("(* %s %s)", a.S, b.S)
 		c.nowrap(guard, x, r)
-		return mk(r)
+		return mk(c.define("ar", SInt, r))
 	case token.QUO, token.REM:
 		c.oblige("divzero", "divzero@"+x.Name(), guard, fmt.Sprintf("(not (= %s 0))", b.S), "division by zero")
 		if !signed {
